@@ -150,7 +150,49 @@ def csv_rows(ctx):
     return 1
 
 
-BATTERIES = {'pipeline': pipelines, 'policy': policies, 'io': failures, 'input-context': input_context, 'take': take_stops, 'invalid-config': invalid_configs, 'binding': bindings, 'csv': csv_rows}
+def roundtrip(ctx):
+    """every style x utf8: the rows are strict JSON for the values, and feeding them back reproduces them byte for byte"""
+    rng = ctx.rng
+    def val(d=0):
+        k = rng.randrange(9 if d < 3 else 6)
+        if k == 0: return None
+        if k == 1: return rng.random() < 0.5
+        if k == 2: return rng.choice([0, 1, -1, 2 ** 53, -2 ** 63, 2 ** 64 - 1, rng.randrange(10 ** 12)])
+        if k == 3: return rng.choice([0.5, -1.25, 1e-7, 123456.789, 1e300, 2.5e-300])
+        if k in (4, 5): return ''.join(rng.choice(['a', '"', '\\', '/', '\n', '\t', '\x00', '\x1f', '\x7f', 'é', '中', '\u2028', ' ', '{', ',']) for _ in range(rng.randrange(6)))
+        if k in (6, 7): return [val(d + 1) for _ in range(rng.randrange(4))]
+        return {(''.join(rng.choice('ab"\\é ') for _ in range(rng.randrange(1, 4))) + str(i)): val(d + 1) for i in range(rng.randrange(4))}
+    vals = [val() for _ in range(40)]
+    stdin = '\n'.join(json.dumps(v, ensure_ascii=False) for v in vals).encode('utf-8')
+    n = 0
+    for style in ('consise', 'one-line', 'pretty'):
+        for utf8 in (False, True):
+            argv = ['--style', style] + (['--utf8-strings'] if utf8 else [])
+            r = run_driver(ctx, argv, stdin); n += 1
+            text = show(r['stdout'])
+            # rows: parse the whole output as a stream of JSON values with an independent reader
+            dec = json.JSONDecoder(); pos = 0; got = []
+            try:
+                while pos < len(text):
+                    while pos < len(text) and text[pos] in ' \n\r\t': pos += 1
+                    if pos >= len(text): break
+                    v, pos = dec.raw_decode(text, pos); got.append(v)
+            except Exception as e:
+                _note(ctx, 'roundtrip', ' '.join(argv), f'output is not a stream of JSON values at offset {pos}: {text[pos:pos + 40]!r}'); continue
+            def nrm(v):
+                if isinstance(v, bool) or v is None or isinstance(v, str): return v
+                if isinstance(v, int): return v if -2 ** 63 <= v < 2 ** 64 else float(v)
+                if isinstance(v, float): return int(v) if v == int(v) and -2 ** 63 <= v < 2 ** 64 else v
+                if isinstance(v, list): return [nrm(x) for x in v]
+                return {k: nrm(x) for k, x in v.items()}
+            if r['result'] != 'ok' or nrm(got) != nrm(vals) or (not utf8 and any(ord(c) > 126 for c in text)):
+                _note(ctx, 'roundtrip', ' '.join(argv), f'{len(got)} values read back of {len(vals)}; first difference at {next((i for i, (a, b) in enumerate(zip(got, vals)) if a != b), None)}'); continue
+            r2 = run_driver(ctx, argv, r['stdout']); n += 1
+            if r2['stdout'] != r['stdout']: _note(ctx, 'roundtrip', ' '.join(argv), 'feeding the output back does not reproduce it byte for byte')
+    return n
+
+
+BATTERIES = {'roundtrip': roundtrip, 'pipeline': pipelines, 'policy': policies, 'io': failures, 'input-context': input_context, 'take': take_stops, 'invalid-config': invalid_configs, 'binding': bindings, 'csv': csv_rows}
 
 
 def conformance(ctx, kinds):
